@@ -80,6 +80,8 @@ CONV = {
     # alternatives one of which is the beginning of another (the order of the alternation must not decide)
     "any(new,news,newsletter)": lambda rng: rng.choice(["new", "news", "newsletter"]),
     "any(ab,a)": lambda rng: rng.choice(["a", "ab"]),
+    # alternatives whose own text begins or ends with a quote character (inside the other kind of quotes)
+    """any("dogs'","dog's",'15"',cats)""": lambda rng: rng.choice(["dogs'", "dog's", '15"', "cats"]),
     "uuid": lambda rng: uuid.UUID(int=rng.getrandbits(128)),
     "path": lambda rng: "/".join((seg_text(rng, 1, 3).replace("/", "") or "x") for _ in range(rng.randint(1, 3))),
 }
